@@ -60,6 +60,8 @@ def outcomes(facts, key, limit=4000):
             raise AnchorError("path explosion", key)
     res = []
     for path in outs:
+        if not feasible(body, path):
+            continue
         last = body.term(path[-1])
         atoms = []
         for a, b in zip(path, path[1:]):
@@ -99,3 +101,139 @@ def outcomes(facts, key, limit=4000):
             ret = ("other-end", last["t"])
         res.append({"path": path, "atoms": atoms, "effects": effects, "calls": calls, "ret": ret})
     return res
+
+
+def body_on_path(body, path):
+    """A view of `body` in which every local's definitions are restricted to the ones executed on `path`
+    (the last one, if several): origin resolution through this view is path-sensitive (no phi terms)."""
+    from .core import Body
+    v = Body(body.facts, body.key, body.j)
+    order = {b: i for i, b in enumerate(path)}
+    d = {}
+    for local, ds in body.defs().items():
+        on = [x for x in ds if x[0] in order]
+        if not on:
+            continue
+        on.sort(key=lambda x: (order[x[0]], 10 ** 6 if x[1] == "term" else x[1]))
+        d[local] = [on[-1]]
+    v._defs = d
+    return v
+
+
+def outcome_values(facts, key, o, local=0):
+    """Path-sensitive value of `local` at the end of outcome `o`."""
+    body = facts.body(key)
+    pe = PathEval(body, o["path"])
+    return norm(pe.local(local), keep_conv=True)
+
+
+def feasible(body, path):
+    """Prune syntactic paths that contradict themselves: a branch on the discriminant of a value that, on this very
+    path, is a known aggregate variant (e.g. `if let Some(x) = y` after `y = None` on this path)."""
+    view = None
+    for a, b in zip(path, path[1:]):
+        t = body.term(a)
+        if t["t"] != "switch":
+            continue
+        if view is None:
+            view = body_on_path(body, path)
+        c = strip(view.resolve_operand(t["discr"]))
+        if c[0] != "discr":
+            continue
+        x = strip(c[1])
+        if x[0] == "var":
+            x = strip(x[2])
+        if x[0] == "agg" and x[1][0] == "adt" and len(c) > 2 and c[2]:
+            variants = list(c[2])
+            if x[1][2] in variants:
+                actual = variants.index(x[1][2])
+                labs = [l for l, tg in body.edges(a) if tg == b]
+                ok = False
+                for l in labs:
+                    if l == "otherwise":
+                        listed = [ll[1] for ll, _ in body.edges(a) if ll != "otherwise"]
+                        if actual not in listed:
+                            ok = True
+                    elif l[1] == actual:
+                        ok = True
+                if not ok:
+                    return False
+    return True
+
+
+class PathEval:
+    """Symbolic evaluation of one loop-free path: locals are bound in execution order, so a use always sees the
+    definition that precedes it on the path (needed for `x = f(x)` re-bindings)."""
+
+    def __init__(self, body, path):
+        from .core import apply_proj, const_term
+        self.body = body
+        self.env = {}
+        self.calls = []
+        for b in path:
+            for st in body.blocks[b]["stmts"]:
+                if st["s"] == "assign":
+                    val = self.rv(st["rv"])
+                    if not st["place"]["proj"]:
+                        self.env[st["place"]["l"]] = val
+            t = body.term(b)
+            if t["t"] == "call" and b != path[-1] or (t["t"] == "call" and t.get("target") is not None and b in path[:-1]):
+                ce = t["callee"]
+                pth = callee_name(ce) if "path" in ce else ("indirect", self.op(ce["indirect"]))
+                args = tuple(self.op(a) for a in t["args"])
+                term = ("call", pth, args, b)
+                self.calls.append(term)
+                if not t["dest"]["proj"]:
+                    self.env[t["dest"]["l"]] = term
+
+    def local(self, l):
+        if l in self.env:
+            return self.env[l]
+        if 1 <= l <= self.body.arg_count:
+            return ("arg", l)
+        return ("local", l)
+
+    def place(self, p):
+        from .core import apply_proj
+        t = self.local(p["l"])
+        for pr in p["proj"]:
+            if pr["p"] == "index":
+                t = ("index", t, self.local(pr["local"]))
+            else:
+                t = apply_proj(t, pr, None)
+        return t
+
+    def op(self, o):
+        from .core import const_term
+        if o["o"] in ("copy", "move"):
+            return self.place(o["place"])
+        if o["o"] == "const":
+            return const_term(o["c"])
+        return ("unknown", o.get("dbg"))
+
+    def rv(self, rv):
+        r = rv["r"]
+        if r == "use":
+            return self.op(rv["op"])
+        if r in ("ref", "rawptr"):
+            return ("ref", rv["bk"] == "mut" or "Mut" in rv["bk"], self.place(rv["place"]))
+        if r == "cast":
+            return ("cast", rv["kind"], self.op(rv["op"]))
+        if r == "binop":
+            return ("binop", rv["bop"], self.op(rv["a"]), self.op(rv["b"]))
+        if r == "unop":
+            return ("unop", rv["uop"], self.op(rv["a"]))
+        if r == "discr":
+            return ("discr", self.place(rv["place"]), tuple(rv.get("variants", ())))
+        if r == "aggregate":
+            ops = tuple(self.op(o) for o in rv["ops"])
+            ak = rv["ak"]
+            if ak == "adt":
+                return ("agg", ("adt", rv["path"], rv["variant"], tuple(rv.get("fields", []))), ops)
+            if ak == "closure":
+                return ("closure", rv["path"], ops)
+            return ("agg", (ak,), ops)
+        return ("unknown", rv.get("dbg", r))
+
+    def ret(self):
+        return norm(self.local(0), keep_conv=True)
